@@ -453,6 +453,32 @@ def w11(ctx, rid):
         raise core.AnchorLost('key-generic index tools: %d' % n)
 
 
+def w12(ctx, rid):
+    """"the index-reading tools report exactly the headers present": a record count is never the number of entries of a map keyed
+    by key (BTreeMap<key, Vec<header>>::len() counts distinct keys) - every `records` / `records_count` field of the tools'
+    collectors is fed per header or from the index header"""
+    prog = ctx.prog
+    n = 0
+    for adt, a in prog.adts.items():
+        if not adt.startswith('tools::'):
+            continue
+        for v in a['variants']:
+            for fl in v['fields']:
+                if fl['name'] not in ('records', 'records_count', 'records_readed', 'count'):
+                    continue
+                for (f, bb, o, how) in core.field_sources(prog, adt, fl['name']):
+                    n += 1
+                    key = 'count-not-map-len|%s.%s|%s' % (adt.split('::')[-1], fl['name'], prog.fns[f.id].root)
+                    ogs = core.origins(f, o) if o is not None else []
+                    maplen = [x for x in ogs if x.kind == 'call' and x.data.name == 'len' and ('BTreeMap' in x.data.path or 'HashMap' in x.data.path or 'btree' in x.data.path)]
+                    if maplen:
+                        ctx.bad(rid, key, maplen[0].data.where(), 'a record count of the tools is taken from the number of entries of a map keyed by key: keys with several records (versions, a write plus its deletion) are counted once')
+                    else:
+                        ctx.ok(rid, key, f.where(bb), 'not a map length', nontrivial=False)
+    if n < 2:
+        raise core.AnchorLost('record-count fields of the tools: %d' % n)
+
+
 RULES = [
     Rule('C16.W1', 'the tools\' record writer stamps its own position into blob_offset (and recomputes the header CRC) before serialising a header', w1, 1),
     Rule('C16.W2', 'the recovered output is re-validated whenever validation was requested', w2, 1),
@@ -464,5 +490,6 @@ RULES = [
     Rule('C16.W9', 'migration passes the source version (as read) to both preprocessors', w9, 2),
     Rule('C16.W10', 'the tools reader reports end of input only at position >= len (bare fields)', w10, 1),
     Rule('C16.W11', 'a key-generic validation tool loads the index with its own key type, not through the fixed key-size table', w11, 1),
+    Rule('C16.W12', 'record counts reported by the tools are never the entry count of a key-indexed map', w12, 2),
     Rule('C16.W7', 'the index tools load through the validating loader and validate every reported header', w7, 2),
 ]
